@@ -160,6 +160,7 @@ class NF:
     def __init__(self, prog: Program, inline_symbolic: bool = True, sugar_eta: bool = True):
         self.prog = prog
         self.inline_symbolic = inline_symbolic
+        self._effectful: set[str] | None = None
         self.sugar_eta = sugar_eta
         self.term_types: dict[Any, Any] = {}
         self._ovr: dict = {}
@@ -244,6 +245,52 @@ class NF:
         if key not in self._ovr:
             self._ovr[key] = any(mname in k.methods for k in self.prog.subclasses(c))
         return self._ovr[key]
+
+    def effectful(self) -> set[str]:
+        """names of methods that (transitively, by name) store into attributes / subscripts or call container mutators: a value
+        normal form never sees through them -- whether they happen to be written as one `return helper(..)` line or not"""
+        if self._effectful is None:
+            from .lints import MUTATORS
+            defs: dict[str, list] = {}
+            for m in self.prog.modules.values():
+                for n in ast.walk(m.tree):
+                    if isinstance(n, (ast.FunctionDef, ast.AsyncFunctionDef)):
+                        defs.setdefault(n.name, []).append(n)
+            eff = set()
+            calls: dict[str, set[str]] = {}
+            for name, fns in defs.items():
+                if name in ("__init__", "__post_init__", "__new__"):
+                    continue
+                cs = set()
+                for fn in fns:
+                    selfn = fn.args.args[0].arg if fn.args.args else None
+                    for n in ast.walk(fn):
+                        if isinstance(n, (ast.Attribute, ast.Subscript)) and isinstance(n.ctx, (ast.Store, ast.Del)):
+                            # a store through the receiver or a parameter (a local being built does not count)
+                            root = n
+                            while isinstance(root, (ast.Attribute, ast.Subscript)):
+                                root = root.value
+                            params = {a.arg for a in fn.args.posonlyargs + fn.args.args + fn.args.kwonlyargs}
+                            if isinstance(root, ast.Name) and root.id in params:
+                                eff.add(name)
+                        if isinstance(n, ast.Call) and isinstance(n.func, ast.Attribute):
+                            root = n.func.value
+                            while isinstance(root, (ast.Attribute, ast.Subscript)):
+                                root = root.value
+                            if isinstance(root, ast.Name) and root.id == selfn:
+                                if n.func.attr in MUTATORS and isinstance(n.func.value, ast.Attribute):
+                                    eff.add(name)
+                                cs.add(n.func.attr)
+                calls[name] = cs
+            changed = True
+            while changed:
+                changed = False
+                for name, cs in calls.items():
+                    if name not in eff and cs & eff:
+                        eff.add(name)
+                        changed = True
+            self._effectful = eff
+        return self._effectful
 
     @staticmethod
     def is_concrete(c: Class) -> bool:
@@ -733,7 +780,7 @@ class NF:
             ty = self.type_of(recv, env)
             if isinstance(ty, Class):
                 c, m = ty.find_method(f.attr)
-                if m is not None and not _is_protocol_stub(m) and (
+                if m is not None and not _is_protocol_stub(m) and f.attr not in self.effectful() and (
                         recv[0] == "ctor" or ((recv == env.vars.get("self") or self.is_concrete(ty)) and not self.overridden_below(ty, f.attr))
                         or (recv == env.vars.get("self") and env.cls is not None and self._self_exact)):
                     try:
